@@ -83,7 +83,7 @@ impl Graph {
     }
 }
 
-pub const NAMES: [&str; 8] = ["p0", "p1", "p2", "p3", "p4", "p5", "p6", "p7"];
+pub const NAMES: [&str; 80] = ["p0", "p1", "p2", "p3", "p4", "p5", "p6", "p7", "p8", "p9", "p10", "p11", "p12", "p13", "p14", "p15", "p16", "p17", "p18", "p19", "p20", "p21", "p22", "p23", "p24", "p25", "p26", "p27", "p28", "p29", "p30", "p31", "p32", "p33", "p34", "p35", "p36", "p37", "p38", "p39", "p40", "p41", "p42", "p43", "p44", "p45", "p46", "p47", "p48", "p49", "p50", "p51", "p52", "p53", "p54", "p55", "p56", "p57", "p58", "p59", "p60", "p61", "p62", "p63", "p64", "p65", "p66", "p67", "p68", "p69", "p70", "p71", "p72", "p73", "p74", "p75", "p76", "p77", "p78", "p79"];
 
 /// The model handed to stateright.
 #[derive(Clone)]
@@ -133,7 +133,79 @@ cond!(c4, 4);
 cond!(c5, 5);
 cond!(c6, 6);
 cond!(c7, 7);
-const CONDS: [fn(&GModel, &u16) -> bool; 8] = [c0, c1, c2, c3, c4, c5, c6, c7];
+cond!(c8, 8);
+cond!(c9, 9);
+cond!(c10, 10);
+cond!(c11, 11);
+cond!(c12, 12);
+cond!(c13, 13);
+cond!(c14, 14);
+cond!(c15, 15);
+cond!(c16, 16);
+cond!(c17, 17);
+cond!(c18, 18);
+cond!(c19, 19);
+cond!(c20, 20);
+cond!(c21, 21);
+cond!(c22, 22);
+cond!(c23, 23);
+cond!(c24, 24);
+cond!(c25, 25);
+cond!(c26, 26);
+cond!(c27, 27);
+cond!(c28, 28);
+cond!(c29, 29);
+cond!(c30, 30);
+cond!(c31, 31);
+cond!(c32, 32);
+cond!(c33, 33);
+cond!(c34, 34);
+cond!(c35, 35);
+cond!(c36, 36);
+cond!(c37, 37);
+cond!(c38, 38);
+cond!(c39, 39);
+cond!(c40, 40);
+cond!(c41, 41);
+cond!(c42, 42);
+cond!(c43, 43);
+cond!(c44, 44);
+cond!(c45, 45);
+cond!(c46, 46);
+cond!(c47, 47);
+cond!(c48, 48);
+cond!(c49, 49);
+cond!(c50, 50);
+cond!(c51, 51);
+cond!(c52, 52);
+cond!(c53, 53);
+cond!(c54, 54);
+cond!(c55, 55);
+cond!(c56, 56);
+cond!(c57, 57);
+cond!(c58, 58);
+cond!(c59, 59);
+cond!(c60, 60);
+cond!(c61, 61);
+cond!(c62, 62);
+cond!(c63, 63);
+cond!(c64, 64);
+cond!(c65, 65);
+cond!(c66, 66);
+cond!(c67, 67);
+cond!(c68, 68);
+cond!(c69, 69);
+cond!(c70, 70);
+cond!(c71, 71);
+cond!(c72, 72);
+cond!(c73, 73);
+cond!(c74, 74);
+cond!(c75, 75);
+cond!(c76, 76);
+cond!(c77, 77);
+cond!(c78, 78);
+cond!(c79, 79);
+const CONDS: [fn(&GModel, &u16) -> bool; 80] = [c0, c1, c2, c3, c4, c5, c6, c7, c8, c9, c10, c11, c12, c13, c14, c15, c16, c17, c18, c19, c20, c21, c22, c23, c24, c25, c26, c27, c28, c29, c30, c31, c32, c33, c34, c35, c36, c37, c38, c39, c40, c41, c42, c43, c44, c45, c46, c47, c48, c49, c50, c51, c52, c53, c54, c55, c56, c57, c58, c59, c60, c61, c62, c63, c64, c65, c66, c67, c68, c69, c70, c71, c72, c73, c74, c75, c76, c77, c78, c79];
 
 impl Model for GModel {
     type State = u16;
@@ -188,6 +260,8 @@ pub struct GenOpts {
     pub undiscoverable: bool,
     pub boundary: bool,
     pub ignored: bool,
+    /// occasionally 62-78 properties (more than fit in a machine word)
+    pub many_props: bool,
 }
 
 fn gen_bits(rng: &mut Rng, n: usize) -> Vec<bool> {
@@ -208,6 +282,7 @@ pub fn gen_graph(rng: &mut Rng, o: &GenOpts) -> Graph {
         1 => rng.range(4, 16),
         _ => rng.range(8, o.max_states.max(9) as u64),
     } as usize;
+    let n = if shape == "widefan" { 2 * (*rng.pick(&[1_100usize, 2_100, 4_200, 8_300])) + 1 } else { n };
     let mut edges: Vec<Vec<Option<u16>>> = vec![Vec::new(); n];
     let mut inits: Vec<u16> = Vec::new();
     let n_inits = (1 + rng.below(3) as usize).min(n);
@@ -222,6 +297,16 @@ pub fn gen_graph(rng: &mut Rng, o: &GenOpts) -> Graph {
                     let parent = if rng.chance(1, 2) { rng.usize_below(s) } else { s - 1 - rng.usize_below(s.min(3)) };
                     edges[parent].push(Some(s as u16));
                 }
+            }
+        }
+        "widefan" => {
+            // one root, `w` children, one grandchild per child: a breadth-first level wider than
+            // any queue-size threshold a checker might have (n = 2w + 1, set by the caller)
+            inits.push(0);
+            let w = (n - 1) / 2;
+            for c in 1..=w {
+                edges[0].push(Some(c as u16));
+                edges[c].push(Some((w + c) as u16));
             }
         }
         "chain" => {
@@ -300,13 +385,23 @@ pub fn gen_graph(rng: &mut Rng, o: &GenOpts) -> Graph {
     let mut props: Vec<PropSpec> = (0..n_props)
         .map(|_| PropSpec { kind: *rng.pick(&o.kinds), bits: gen_bits(rng, n) })
         .collect();
+    if o.many_props && rng.chance(1, 40) {
+        // more properties than bits in a machine word: fillers that are never discovered (always
+        // true / never true) around the generated ones, which land at arbitrary positions
+        let total = rng.range(62, 78) as usize;
+        while props.len() < total {
+            let filler = if rng.chance(1, 2) { PropSpec { kind: Kind::Always, bits: vec![true; n] } } else { PropSpec { kind: Kind::Sometimes, bits: vec![false; n] } };
+            let i = if rng.chance(1, 2) { 0 } else { rng.usize_below(props.len() + 1) };
+            props.insert(i, filler);
+        }
+    }
     if o.undiscoverable {
         let p = if rng.chance(1, 2) {
             PropSpec { kind: Kind::Always, bits: vec![true; n] }
         } else {
             PropSpec { kind: Kind::Sometimes, bits: vec![false; n] }
         };
-        if props.len() >= 8 || (props.len() >= o.max_props && !props.is_empty()) {
+        if props.len() >= NAMES.len() || (props.len() >= o.max_props && !props.is_empty()) {
             let i = rng.usize_below(props.len());
             props[i] = p;
         } else {
